@@ -123,6 +123,9 @@ type c10Pos struct {
 	owner   string
 	health  math.LegacyDec
 	healthE string
+	// modelHealth: set only when the module's estimator failed (oracle-price model, see c10Snapshot)
+	modelHealth math.LegacyDec
+	modelLong   bool
 	stop    bool
 	tp      bool
 	desc    string
@@ -218,13 +221,27 @@ func c10Snapshot(w *World, h, tm int64, withHealth bool, atom ...string) *c10Sna
 					cp.healthE = err.Error()
 					return
 				}
+				price, perr := k.GetAssetPrice(c, m.TradingAsset)
 				hh, err := k.GetMTPHealth(c, mm, ammPool, "uusdc")
 				if err != nil {
 					cp.healthE = err.Error()
-					return
+					// the module's estimator cannot value the position (e.g. the pool is too thin for a swap estimate of
+					// its size). Independent model at the ORACLE price: long = custody x price / debt, short = custody /
+					// (debt x price). The estimator prices the same quantities through the pool (slippage makes a long
+					// look better and a short worse), so the model is trusted only far from the factor (see Post).
+					debt := mm.Liabilities.Add(mm.BorrowInterestUnpaidLiability)
+					if perr == nil && price.IsPositive() && debt.IsPositive() && mm.Custody.IsPositive() {
+						if m.Position == perptypes.Position_LONG {
+							cp.modelHealth = mm.Custody.ToLegacyDec().Mul(price).Quo(debt.ToLegacyDec())
+						} else {
+							cp.modelHealth = mm.Custody.ToLegacyDec().Quo(debt.ToLegacyDec().Mul(price))
+						}
+						cp.modelLong = m.Position == perptypes.Position_LONG
+					}
+				} else {
+					cp.health = hh
 				}
-				cp.health = hh
-				price, err := k.GetAssetPrice(c, m.TradingAsset)
+				err = perr
 				if err == nil {
 					if m.Position == perptypes.Position_LONG {
 						cp.stop = !m.StopLossPrice.IsNil() && m.StopLossPrice.IsPositive() && price.LTE(m.StopLossPrice)
@@ -264,7 +281,21 @@ func OracleC10() *Oracle {
 						continue
 					}
 					if q.healthE != "" {
+						// closable at either price: the model health of the pair is the lower one; no model at one of the
+						// two prices means no model at all
+						switch {
+						case q.modelHealth.IsNil():
+							p.modelHealth = math.LegacyDec{}
+						case p.healthE == "":
+							p.modelHealth, p.modelLong = math.LegacyMinDec(p.health, q.modelHealth), q.modelLong
+						case !p.modelHealth.IsNil():
+							p.modelHealth = math.LegacyMinDec(p.modelHealth, q.modelHealth)
+						}
 						p.healthE = q.healthE
+					} else if p.healthE != "" {
+						if !p.modelHealth.IsNil() {
+							p.modelHealth = math.LegacyMinDec(p.modelHealth, q.health)
+						}
 					} else if p.healthE == "" && q.health.LT(p.health) {
 						p.health = q.health
 					}
@@ -345,6 +376,18 @@ func OracleC10() *Oracle {
 				}
 				Clauses.Inc("altered_without_owner")
 				if p.healthE != "" {
+					// estimator failed: judged only when the oracle-price model puts the position FAR above the
+					// factor (long: 5 %, short: 25 % — the estimator values a short's debt through the pool, with
+					// slippage against it) and no trigger price is reached
+					margin := "1.05"
+					if !p.modelLong {
+						margin = "1.25"
+					}
+					if mod == "perp" && !p.modelHealth.IsNil() && p.modelHealth.GT(sf.Mul(Dec(margin))) && !p.stop && !p.tp {
+						Clauses.Inc("forced_close_judged_by_oracle_price_model")
+						bad("healthy_position_altered_by_third_party", "module="+mod+",health=oracle_price_model", fmt.Sprintf("%s: the module's health estimate fails (%s); at the oracle price its health is %s against a safety factor %s, no trigger price reached; yet without its owner's signature it was %s", p.desc, firstLines(p.healthE, 1), p.modelHealth, sf, what))
+						continue
+					}
 					Clauses.Inc("health_not_computable_not_judged")
 					continue
 				}
